@@ -2,5 +2,6 @@ import NormModel.Properties.C02
 #print axioms Norm.C02.v82_line_too_long
 #print axioms Norm.C02.ternary_e2e
 #print axioms Norm.C02.ternary_sound
+#print axioms Norm.C02.trailing_space_e2e
 #print axioms Norm.C02.counters_fire
 #print axioms Norm.C02.verdict_error
